@@ -90,8 +90,9 @@ pub fn case_to_json<F: Flt>(l: &Layout, d: Dims, c: &Case<F>) -> Value {
     })
 }
 
-pub fn re_class(x: f64) -> &'static str {
-    if x.is_nan() {
+/// input class of a real part for signatures: sign and magnitude bucket relative to the float width
+pub fn re_class_f(x: f64, eps: f64) -> String {
+    let sign = if x.is_nan() {
         "re=nan"
     } else if x == 0.0 {
         "re=0"
@@ -99,7 +100,19 @@ pub fn re_class(x: f64) -> &'static str {
         "re<0"
     } else {
         "re>0"
-    }
+    };
+    let mag = if x == 0.0 || x.is_nan() {
+        ""
+    } else if x.abs() < eps {
+        "~tiny"
+    } else if x.abs() < 1e-3 {
+        "~small"
+    } else if x.abs() > 1e3 {
+        "~large"
+    } else {
+        ""
+    };
+    format!("{sign}{mag}")
 }
 
 /// short class name of a type for signatures: outer constructor chain without dims
@@ -166,7 +179,12 @@ pub fn compare_tol<F: Flt>(l: &Layout, got: &Parts<F>, want: &Val, extra: Option
         }
         let mut tol = want.e.get(m0).to_f64();
         if let Some(x) = extra {
-            tol += x.get(m0).to_f64();
+            // a defining-expression bound that is not finite (0/0 at a removable singularity,
+            // overflow of an intermediate power) grants nothing: the primitive bound applies
+            let ex = x.get(m0).to_f64();
+            if ex.is_finite() {
+                tol += ex;
+            }
         }
         tol = tol * slack + 1e-24 * w.abs_dd().to_f64();
         let g = got.alpha(l, i).to64();
@@ -208,7 +226,7 @@ pub fn run_tol<F: Flt, D: Subject<F>>(
         Ok(p) => p,
         Err(msg) => {
             st.violation(Violation {
-                sig: format!("{} {} {} panic", case.op.name(), type_class(l), re_class(re0)),
+                sig: format!("{} {} {} panic", case.op.name(), type_class(l), re_class_f(re0, 2.0 * F::U)),
                 case: case_to_json(l, d, case),
                 what: format!("panicked: {msg}"),
             });
@@ -249,7 +267,14 @@ pub fn run_tol<F: Flt, D: Subject<F>>(
     if !cmp.ok {
         let deg = l.slot_degree(cmp.worst_slot);
         st.violation(Violation {
-            sig: format!("{} {} {} order{}", opname, type_class(l), re_class(re0), deg),
+            sig: format!(
+                "{} {} {} order{}{}",
+                opname,
+                type_class(l),
+                re_class_f(re0, 2.0 * F::U),
+                deg,
+                if cmp.got.is_finite() { "" } else { " nonfinite" }
+            ),
             case: case_to_json(l, d, case),
             what: format!(
                 "slot {} got {:e} want {:e} tol {:e} (ratio {:.3e})",
@@ -287,7 +312,7 @@ pub fn run_exact<F: Flt, D: Subject<F>>(
         Ok(p) => p,
         Err(msg) => {
             st.violation(Violation {
-                sig: format!("{} {} {} panic", case.op.name(), type_class(l), re_class(re0)),
+                sig: format!("{} {} {} panic", case.op.name(), type_class(l), re_class_f(re0, 2.0 * F::U)),
                 case: case_to_json(l, d, case),
                 what: format!("panicked: {msg}"),
             });
@@ -355,4 +380,188 @@ impl<'a, R: TypedAction> Visitor for FindType<'a, R> {
 
 pub fn replay_dims(case: &Value) -> Dims {
     Dims { m: case["dims"][0].as_u64().unwrap() as usize, n: case["dims"][1].as_u64().unwrap() as usize }
+}
+
+// ------------------------------------------------------------------------------------------------
+// sweeps
+
+pub struct SweepInfo {
+    pub cases: usize,
+    pub full_grid: bool,
+    pub space: Vec<usize>,
+}
+
+/// Enumerate every assignment of derivative parts (full tensor grid, `degree+1` values per part,
+/// every presence pattern) of all operands of `op` at the given real parts and check each case
+/// with the tolerance oracle.  If the grid exceeds `budget` it is walked with an odd stride and
+/// reported as reduced.
+pub fn sweep_tol<F: Flt, D: Subject<F>>(
+    d: Dims,
+    l: &Layout,
+    op: Op,
+    re: &[f64],
+    budget: usize,
+    cfg: &TolCfg,
+    exec: &(dyn Fn(Op, &[D]) -> D + Sync),
+    st: &mut Stats,
+) -> SweepInfo {
+    let ar = op.arity();
+    assert_eq!(re.len(), ar);
+    let nv: Vec<usize> = (0..l.nslots()).map(|i| if i == 0 { 1 } else { slot_poly_degree(l, i) + 1 }).collect();
+    let spaces: Vec<OperandSpace> = (0..ar).map(|k| OperandSpace::new(l, &[re[k]], nv.clone(), true, k * l.nslots(), false)).collect();
+    let total: usize = spaces.iter().map(|s| s.total).fold(1usize, |a, b| a.saturating_mul(b));
+    let stride = if total > budget { ((total + budget - 1) / budget) | 1 } else { 1 };
+    let n = total / stride + if total % stride != 0 { 1 } else { 0 };
+    let spaces_ref = &spaces;
+    explore::par_for(n, st, |i, st| {
+        let mut idx = i * stride;
+        let mut args = Vec::with_capacity(ar);
+        for s in spaces_ref.iter() {
+            args.push(s.get::<F>(idx % s.total));
+            idx /= s.total;
+        }
+        run_tol::<F, D>(d, l, &Case { op, args }, cfg, exec, st);
+    });
+    SweepInfo { cases: n, full_grid: stride == 1, space: spaces.iter().map(|s| s.total).collect() }
+}
+
+/// generic replay entry for tolerance-checked depth-1 cases
+pub struct ReplayTol<'a> {
+    pub case: &'a Value,
+    pub cfg: TolCfg<'a>,
+    pub ok: Option<bool>,
+}
+impl<'a> TypedAction for ReplayTol<'a> {
+    fn act<F: Flt, D: Subject<F>>(&mut self, d: Dims, l: &Layout) {
+        let op = op_from_json(&self.case["op"]);
+        let args: Vec<Parts<F>> = self.case["args"].as_array().unwrap().iter().map(parts_from_json::<F>).collect();
+        let case = Case { op, args };
+        let mut st = Stats::default();
+        let r1 = run_tol::<F, D>(d, l, &case, &self.cfg, &exec_generic::<F, D>, &mut st);
+        let mut st2 = Stats::default();
+        let r2 = run_tol::<F, D>(d, l, &case, &self.cfg, &exec_generic::<F, D>, &mut st2);
+        if r1 != r2 || st.outcomes != st2.outcomes {
+            explore::machinery("replay is not deterministic");
+        }
+        for (sig, (_, v)) in &st.violations {
+            println!("replay: {sig}: {}", v.what);
+        }
+        self.ok = Some(r1);
+    }
+}
+
+pub fn run_replay_tol(prop: &str, path: &str, cfg: TolCfg, universe: &dyn Fn(&mut FindType<ReplayTol>)) -> ! {
+    let v = explore::read_replay(path);
+    let case = &v["case"];
+    let mut act = ReplayTol { case, cfg, ok: None };
+    let name = case["type"].as_str().unwrap().to_string();
+    let mut f = FindType { name: &name, dims: replay_dims(case), action: &mut act, found: false };
+    universe(&mut f);
+    if !f.found {
+        explore::machinery(&format!("replay: type {name} not in the universe"));
+    }
+    if act.ok == Some(true) {
+        println!("replay: property holds on this case");
+        std::process::exit(0)
+    }
+    println!("VIOLATION property={prop} replay={path}");
+    std::process::exit(1)
+}
+
+/// Many sweeps over one type in a single parallel loop (avoids per-sweep thread start-up).
+pub fn sweep_many<F: Flt, D: Subject<F>>(
+    d: Dims,
+    l: &Layout,
+    jobs: &[(Op, Vec<f64>)],
+    budget: usize,
+    cfg: &TolCfg,
+    exec: &(dyn Fn(Op, &[D]) -> D + Sync),
+    st: &mut Stats,
+) -> SweepInfo {
+    let nv: Vec<usize> = (0..l.nslots()).map(|i| if i == 0 { 1 } else { slot_poly_degree(l, i) + 1 }).collect();
+    struct Unit {
+        op: Op,
+        spaces: Vec<OperandSpace>,
+        stride: usize,
+        start: usize,
+    }
+    let mut units = Vec::new();
+    let mut total_cases = 0usize;
+    let mut full = true;
+    let mut space = Vec::new();
+    for (op, re) in jobs {
+        let ar = op.arity();
+        assert_eq!(re.len(), ar);
+        let spaces: Vec<OperandSpace> = (0..ar).map(|k| OperandSpace::new(l, &[re[k]], nv.clone(), true, k * l.nslots(), false)).collect();
+        let total: usize = spaces.iter().map(|s| s.total).fold(1usize, |a, b| a.saturating_mul(b));
+        let stride = if total > budget { ((total + budget - 1) / budget) | 1 } else { 1 };
+        let n = total / stride + if total % stride != 0 { 1 } else { 0 };
+        full &= stride == 1;
+        if space.is_empty() {
+            space = spaces.iter().map(|s| s.total).collect();
+        }
+        units.push(Unit { op: *op, spaces, stride, start: total_cases });
+        total_cases += n;
+    }
+    let units_ref = &units;
+    explore::par_for(total_cases, st, |i, st| {
+        let k = match units_ref.binary_search_by(|u| u.start.cmp(&i)) {
+            Ok(k) => k,
+            Err(k) => k - 1,
+        };
+        let u = &units_ref[k];
+        let mut idx = (i - u.start) * u.stride;
+        let mut args = Vec::with_capacity(u.spaces.len());
+        for s in u.spaces.iter() {
+            args.push(s.get::<F>(idx % s.total));
+            idx /= s.total;
+        }
+        run_tol::<F, D>(d, l, &Case { op: u.op, args }, cfg, exec, st);
+    });
+    SweepInfo { cases: total_cases, full_grid: full, space }
+}
+
+/// A few operand-part assignments at a real part: `k` generic ones (every part non-zero, pairwise
+/// distinct, different per assignment) followed by the unit seeding used by the drivers
+/// (first-order parts 1, higher parts zero / absent).
+pub fn few_assignments<F: Flt>(l: &Layout, re: f64, k: usize, salt: usize) -> Vec<Parts<F>> {
+    let mut out = Vec::new();
+    for a in 0..k {
+        let vals: Vec<F> = (0..l.nslots())
+            .map(|i| F::from64(if i == 0 { re } else { part_value(i + salt, 1 + (i + a) % 3) }))
+            .collect();
+        out.push(Parts { vals, present: vec![true; l.ngroups()] });
+    }
+    // unit seeding
+    let vals: Vec<F> = (0..l.nslots()).map(|i| F::from64(if i == 0 { re } else if l.slot_degree(i) == 1 { 1.0 } else { 0.0 })).collect();
+    let mut present = vec![false; l.ngroups()];
+    for (i, s) in l.slots.iter().enumerate() {
+        if l.slot_degree(i) == 1 {
+            for g in &s.groups {
+                present[*g] = true;
+            }
+        }
+    }
+    out.push(Parts { vals, present });
+    out
+}
+
+/// Run a list of unary jobs (op, real part) with `k` generic assignments + unit seeding each.
+pub fn sweep_points<F: Flt, D: Subject<F>>(
+    d: Dims,
+    l: &Layout,
+    jobs: &[(Op, f64)],
+    k: usize,
+    cfg: &TolCfg,
+    exec: &(dyn Fn(Op, &[D]) -> D + Sync),
+    st: &mut Stats,
+) -> usize {
+    let per = k + 1;
+    explore::par_for(jobs.len(), st, |i, st| {
+        let (op, re) = jobs[i];
+        for p in few_assignments::<F>(l, re, k, 0) {
+            run_tol::<F, D>(d, l, &Case { op, args: vec![p] }, cfg, exec, st);
+        }
+    });
+    jobs.len() * per
 }
